@@ -3,6 +3,7 @@ package lib
 import (
 	"bytes"
 	"fmt"
+	"net/url"
 	"os"
 	"os/exec"
 	"reflect"
@@ -79,12 +80,26 @@ type c13RefKey struct {
 
 var c13RefCache = map[c13RefKey]*plainRef{}
 
-func c13Reference(opts *Options, optsKey string, di int, doc corpus.Doc) *plainRef {
+func parseURL(s string) *url.URL {
+	if s == "" {
+		return nil
+	}
+	u, err := url.Parse(s)
+	if err != nil {
+		return nil
+	}
+	return u
+}
+
+func c13Reference(opts *Options, optsKey string, di int, doc corpus.Doc, siteURL ...string) *plainRef {
 	k := c13RefKey{optsKey, di}
 	if r, ok := c13RefCache[k]; ok {
 		return r
 	}
 	m := NewRegistry(opts.Clone())
+	if len(siteURL) > 0 {
+		m.URL = parseURL(siteURL[0])
+	}
 	op := &Op{Entry: EPlain, MT: doc.MT, In: doc.Data, R: sim.NewSimReader(nil, doc.Data), W: sim.NewSimWriter(nil)}
 	op.Exec(nil, m)
 	r := &plainRef{Out: op.Out, Err: op.Err, W: op.W.Calls}
@@ -111,7 +126,7 @@ func hostDocs(env *Env) []int {
 			continue
 		}
 		low := bytes.ToLower(d.Data)
-		if bytes.Contains(low, []byte("<style")) || bytes.Contains(low, []byte("<script")) || bytes.Contains(low, []byte("<svg")) || bytes.Contains(low, []byte("style=")) {
+		if bytes.Contains(low, []byte("<style")) || bytes.Contains(low, []byte("<script")) || bytes.Contains(low, []byte("<svg")) || bytes.Contains(low, []byte("style=")) || bytes.Contains(low, []byte("example.com")) {
 			hostIdx = append(hostIdx, i)
 		}
 	}
@@ -251,6 +266,14 @@ func c13Case(env *Env, tape *sim.Tape) *CaseOut {
 	before := opts.Clone()
 	optsKey := opts.String()
 	ntasks := 2 + tape.Draw(5)
+	// the registry's site URL (the CLI's --url) changes how http(s) URLs are written
+	siteURL := []string{"", "", "https://example.com/dir/", "http://example.com/"}[tape.Draw(4)]
+	optsKey += " url=" + siteURL
+	// "any number of goroutines": now and then far more calls are in flight than a handful
+	mass := tape.Draw(48) == 47
+	if mass {
+		ntasks = 104 + tape.Draw(60)
+	}
 	stick := []int{0, 1, 9}[tape.Draw(3)]
 	maxDoc := 8 << 10
 	var tasks [][]*Op
@@ -258,10 +281,15 @@ func c13Case(env *Env, tape *sim.Tape) *CaseOut {
 	hosts := hostDocs(env)
 	for ti := 0; ti < ntasks; ti++ {
 		nops := 1 + tape.Draw(3)
+		if mass {
+			nops = 1
+		}
 		var ops []*Op
 		for oi := 0; oi < nops; oi++ {
 			var di int
 			switch {
+			case mass:
+				di = tape.Draw(len(ShortDocs()))
 			case len(all) > 0 && tape.Draw(4) == 0:
 				di = all[tape.Draw(len(all))].di // the same input from several tasks
 			case tape.Draw(3) == 0:
@@ -275,6 +303,9 @@ func c13Case(env *Env, tape *sim.Tape) *CaseOut {
 				doc = env.Corpus[di]
 			}
 			entry := c13Entries[tape.Draw(len(c13Entries))]
+			if mass {
+				entry = []int{EWriter, EReader, EPlain}[tape.Draw(3)] // streams stay open while the others start
+			}
 			if entry == EDirect && opts.direct(doc.MT) == nil {
 				entry = EPlain
 			}
@@ -292,12 +323,16 @@ func c13Case(env *Env, tape *sim.Tape) *CaseOut {
 				op.Direct = opts.direct(doc.MT)
 			}
 			ops = append(ops, op)
-			all = append(all, &c13Op{Op: op, di: di, ref: c13Reference(opts, optsKey, di, doc)})
+			all = append(all, &c13Op{Op: op, di: di, ref: c13Reference(opts, optsKey, di, doc, siteURL)})
 		}
 		tasks = append(tasks, ops)
 	}
 	// the reference runs must not have touched the shared structs either (they use clones)
 	m := NewRegistry(opts)
+	m.URL = parseURL(siteURL)
+	if mass {
+		out.stat("probe_more_than_100_calls_in_flight", 1)
+	}
 	budget := 256
 	for _, o := range all {
 		budget += 8 * (o.ref.W + len(o.R.Chunks) + len(o.WriteChunks) + len(o.In)/32 + len(o.ref.Out)/32 + 16)
